@@ -214,6 +214,17 @@ func (p *Provider) wrap(t string, variant int) []byte {
 	if variant == 3 {
 		role = "model"
 	}
+	if variant >= 10 {
+		// several assistant items: the provider's answer is the LAST one. Variant
+		// 10: an earlier draft followed by the real answer t. Variants 11/12 are
+		// built by wrapDraftThenEmpty.
+		resp := map[string]any{"items": []any{
+			map[string]any{"type": "message", "role": "assistant", "content": []any{map[string]any{"type": "output_text", "text": "{\"verdict\": \"LIE\", \"evidence\": \"draft\", \"safe\": false}"}}},
+			map[string]any{"type": "message", "role": "assistant", "content": []any{map[string]any{"type": "output_text", "text": t}}},
+		}}
+		b, _ := json.Marshal(resp)
+		return b
+	}
 	resp := map[string]any{"items": []any{
 		map[string]any{"type": "reasoning", "role": "system", "content": "thinking"},
 		map[string]any{"type": "message", "role": role, "content": content},
@@ -304,7 +315,26 @@ func (p *Provider) RoundTrip(req *http.Request) (*http.Response, error) {
 		d.Status = 200
 		variant := 0
 		if p.Family == "openai" {
-			variant = t.Intn(4, "wrap.variant")
+			variant = t.Weighted("wrap.variant", 4, 2, 2, 1, 1, 2)
+			if variant == 4 {
+				variant = 10
+			}
+			if variant == 5 {
+				// a good-looking DRAFT item followed by a final item without any text
+				// (refusal / empty part list): the final answer is empty, whatever the draft said
+				deliver("draft-then-textless-final", Bad)
+				good := texts[0].body
+				final := []any{map[string]any{"type": "refusal", "refusal": "I cannot help with that."}}
+				if t.Chance("final.emptyparts", 1, 2) {
+					final = []any{}
+				}
+				resp := map[string]any{"items": []any{
+					map[string]any{"type": "message", "role": "assistant", "content": []any{map[string]any{"type": "output_text", "text": good}}},
+					map[string]any{"type": "message", "role": "assistant", "content": final},
+				}}
+				b, _ := json.Marshal(resp)
+				return httpResp(req, 200, io.NopCloser(bytes.NewReader(b))), nil
+			}
 		}
 		deliver("ok", x.class)
 		return httpResp(req, 200, io.NopCloser(bytes.NewReader(p.wrap(x.body, variant)))), nil
